@@ -38,7 +38,9 @@ VENDORS = {
 # models that edit a candidate configuration (harness knowledge about the devices: VRP8 boxes are the CE and NE series; S-series and H3C,
 # classic IOS and NX-OS write straight into the running configuration; the old B4com CS2148P firmware has no commit either)
 # (Aruba Instant is left out: its access-point environment commands are a session of their own outside `conf t`)
-TWOSTAGE = re.compile(r"^(Huawei (CE|NE)\d|Arista |Cisco (ASR|XRv)|B4com (?!CS2148P))")
+TWOSTAGE = re.compile(r"^(Huawei (CE|NE)\d|Arista |Cisco (ASR|XRv)|B4com (?!CS2148P)|Juniper |Ribbon |Nokia )")
+# vendors that flatten the patch into one line per command: only the wrapper clauses of the property apply to them
+FLAT_VENDORS = {"juniper": ["Juniper MX960", "Juniper QFX5120"], "ribbon": ["Ribbon NPT"], "nokia": ["Nokia 7750"], "routeros": ["RouterOS RB4011"]}
 
 SYN_DEPLOY = [
     {"pat": "interface *", "timeout": 45, "answers": ["Y"], "kids": [
@@ -101,7 +103,22 @@ def lex_patch(text, indent):
 _CALLS = [0]
 
 
-def observe(hw, vclass, pt, do_commit, do_finalize, drules, judge_params, check_model):
+class Drv:
+    """what a deploy driver does with the rulebook part of its interface: hand the call on to annet.deploy.apply_deploy_rulebook"""
+    def apply_deploy_rulebook(self, hw, cmd_paths, do_finalize=True, do_commit=True):
+        from annet import deploy
+        return deploy.apply_deploy_rulebook(hw, cmd_paths, do_finalize=do_finalize, do_commit=do_commit)
+
+    def build_configuration_cmdlist(self, hw, do_finalize=True, do_commit=True):
+        from annet.annlib.command import CommandList
+        return CommandList(), CommandList()
+
+    def build_exit_cmdlist(self, hw):
+        from annet.annlib.command import CommandList
+        return CommandList()
+
+
+def observe(hw, vclass, pt, do_commit, do_finalize, drules, judge_params, check_model, sent_cl=None):
     from annet import deploy
     from annet.vendors import registry_connector
     fmt = registry_connector.get().match(hw).make_formatter(indent="  ")
@@ -112,18 +129,20 @@ def observe(hw, vclass, pt, do_commit, do_finalize, drules, judge_params, check_
     shown = lex_patch(fmt.patch(pt), "  ")
     cmd_paths = fmt0.cmd_paths(pt)
     paths = [[c.split() for c in p] for p in cmd_paths]
-    ctxs = [[[k, v] for k, v in (c or {}).items()] for c in cmd_paths.values()]
+    ctxs = [[[k, v] for k, v in (c or {}).items()] for _p, c in cmd_paths.items()]
     # the public signature is apply_deploy_rulebook(hw, cmd_paths, do_finalize=True, do_commit=True), the same as the deploy drivers'
     # method: callers may pass the two switches by position
     _CALLS[0] += 1
-    if _CALLS[0] % 2:
+    if sent_cl is not None:
+        cl = sent_cl                # the command list a production caller assembled itself
+    elif _CALLS[0] % 2:
         cl = deploy.apply_deploy_rulebook(hw, cmd_paths, do_finalize, do_commit)
     else:
         cl = deploy.apply_deploy_rulebook(hw, cmd_paths, do_finalize=do_finalize, do_commit=do_commit)
     sent = [{"d": c.level, "row": c.cmd.split(), "timeout": int(c.timeout) if c.timeout is not None else -1,
              "answers": [q.answer for q in (c.questions or [])]} for c in cl]
     return {"v": vclass, "pt": pt_json(pt), "shown": shown, "paths": paths, "sent": sent, "docommit": do_commit, "dofinalize": do_finalize,
-            "twostage": bool(TWOSTAGE.match(hw.model)),
+            "twostage": bool(TWOSTAGE.match(hw.model)), "flat": getattr(registry_connector.get().match(hw), "NAME", "") in FLAT_VENDORS,
             "drules": drules, "ctxs": ctxs, "judgeParams": judge_params, "checkModel": check_model}
 
 
@@ -166,7 +185,7 @@ def run(ctx):
             rec.update(observe(hw, vclass, pt, dc, df, drules, jp, cm))
         except Exception as e:
             rec.update({"v": vclass, "pt": [], "shown": [], "paths": [], "sent": [], "docommit": dc, "dofinalize": df, "drules": [],
-                        "judgeParams": False, "checkModel": False, "exc": repr(e)})
+                        "judgeParams": False, "checkModel": False, "twostage": False, "flat": False, "ctxs": [], "exc": repr(e)})
         rec["hw"] = hw.model if hasattr(hw, "model") else str(hw)
         recs.append(rec)
         ctx.count()
@@ -215,6 +234,58 @@ def run(ctx):
                 continue
             for dc, df in (flags if not quick else [rnd.choice(flags), (False, False)]):
                 emit("corpus-%s" % vname, hw, VENDORS[vname][1], p, dc, df, [], False, False)
+    # ---- flattening vendors: the wrapper clauses (only wrapper commands added, commit iff enabled, every command path sent once, in order)
+    for (name, vendor, hw, old, new) in corpus.samples():
+        vname = getattr(registry_connector.get().match(hw), "NAME", "")
+        if vname not in FLAT_VENDORS:
+            continue
+        for (a, b) in ((old, new), (new, old)):
+            for model in FLAT_VENDORS[vname]:
+                hw2 = E.hwview(model, "")
+                try:
+                    _d, p = api._diff_and_patch(E.device(hw2), E.cp(a), E.cp(b), None, None, False)
+                except Exception:
+                    continue
+                for dc, df in flags:
+                    emit("flat-%s" % vname, hw2, "common", p, dc, df, [], False, False)
+    # ---- the production caller: CliDeployerJob.parse_result(OldNewResult) with `--dont-commit` on and off; what it hands to the deploy
+    # driver is judged like every other stream, against the patch of the same inputs under the same commit switch
+    import types
+    import annet.deploy
+    from annet.types import OldNewResult
+    from .. import genrun
+    saved_get = annet.deploy.get_deployer
+    annet.deploy.get_deployer = lambda: Drv()
+    try:
+        for (name, vendor, hw, old, new) in corpus.samples():
+            vname = getattr(registry_connector.get().match(hw), "NAME", "")
+            if vname not in VENDORS:
+                continue
+            for dont in (False, True):
+                dev = genrun.Dev(hw)
+                try:
+                    job = api.CliDeployerJob(dev, types.SimpleNamespace(dont_commit=dont, acl_safe=False))
+                    job.parse_result(OldNewResult(device=dev, old=E.cp(old), new=E.cp(new)))
+                    _d, p = api._diff_and_patch(dev, E.cp(old), E.cp(new), None, None, False, do_commit=not dont)
+                except Exception:
+                    ctx.skip("production caller: vendor logic raised on a corpus sample")
+                    continue
+                cl = job.deploy_cmds.get(dev)
+                if cl is None:
+                    if registry_connector.get().match(hw).make_formatter(indent="").cmd_paths(p):
+                        ctx.reject("prod-%s-%s" % (name, dont), "production-caller-sent-nothing-for-a-patch-with-commands", {"sample": name}, None)
+                    continue
+                rec = {"id": "prod-%s-%d" % (vname, len(recs))}
+                rec.update(observe(hw, VENDORS[vname][1], p, not dont, True, [], False, False, sent_cl=cl))
+                rec["hw"] = hw.model
+                # the command lines announced to the operator are the last elements of the paths, in order
+                announced = [ln.split() for ln in job.cmd_lines[2:-1]]
+                if announced != [pth[-1] for pth in rec["paths"]]:
+                    ctx.reject(rec["id"], "announced-command-lines-differ-from-the-patch", dict(rec, announced=announced), None)
+                recs.append(rec)
+                ctx.count()
+    finally:
+        annet.deploy.get_deployer = saved_get
     # ---- trees assembled from corpus blocks of one vendor (mixes rows of different deploy contexts / apply logics), real make_patch
     from .c16 import mix
     byv = {}
@@ -305,6 +376,6 @@ def signature_of(rec, clause):
             if key not in seen:
                 seen.add(key)
                 ded.append(list(stack))
-        if ded == rec["paths"] and len(ded) < len(rec["shown"]) and rec["id"].startswith(("corpus-", "mix-", "synth-")):
+        if ded == rec["paths"] and len(ded) < len(rec["shown"]) and rec["id"].startswith(("corpus-", "mix-", "synth-", "prod-")):
             return "patch from a shipped rulebook holds equal sibling commands; cmd_paths is keyed by path and keeps one"
     return None
